@@ -1931,8 +1931,21 @@ impl<'arena> PrettyFormatter<'arena> {
         &self, view: ManifestParameterView<'arena>, entity: PatId,
     ) -> RcDoc<'arena> {
         let ManifestParameterView { fields, binder, definition, classifier } = view;
+        // The parser pushes the `as` suffix beneath an ungrouped `field = p`, so a binder
+        // that is itself a named pattern keeps the group that makes it the whole binder.
+        let binder_document =
+            match self.arena.pats[&self.transparent_pattern_group(binder)] {
+                | Pattern::Named(_) => self.delimited(
+                    None,
+                    "(",
+                    vec![LayoutFragment::entity(binder.into(), self.annotated_pattern(binder))],
+                    ",",
+                    ")",
+                ),
+                | _ => self.annotated_pattern(binder),
+            };
         let binder = fields.iter().rev().enumerate().fold(
-            LayoutFragment::entity(binder.into(), self.annotated_pattern(binder)),
+            LayoutFragment::entity(binder.into(), binder_document),
             |inner, (depth, (named, field))| {
                 let inner_last = inner.anchors.last;
                 let document = if depth == 0 {
